@@ -235,10 +235,16 @@ let expr_model out =
     | [hex; "=>"; "LEXERR"] -> Printf.fprintf out "%s => LEXERR\n" hex
     | [hex; "=>"; toks] ->
       let ts = List.map parse_tok (List.filter (fun x -> x <> "") (String.split_on_char ';' toks)) in
+      (* the hypothesis of the span theorems, evaluated on this real token list *)
+      if not (input_okb ts) then Printf.fprintf out "%s => NOT-INPUT-OK\n" hex else
       (match parse_expr ts with
        | Ok (e, rest) ->
          let b = Buffer.create 256 in
          dump_tree b (to_tree e);
+         (* epos/eend (proved equal to the generated Pos/End) must agree with the interpreter run on the generated programs *)
+         (match pe_impl Models.schema Models.pos_impl (to_tree e) with
+          | Some (p, q) when int_of_z p = int_of_z (epos e) && int_of_z q = int_of_z (eend e) -> ()
+          | _ -> Buffer.add_string b " POS-MISMATCH");
          Printf.fprintf out "%s => OK %d %s\n" hex (List.length rest) (Buffer.contents b)
        | Err p -> Printf.fprintf out "%s => ERR %d\n" hex (int_of_z p)
        | Unsup -> Printf.fprintf out "%s => UNSUP\n" hex
